@@ -153,54 +153,6 @@ theorem rangeJobs_cells_overlap :
 
 /-! ## the model mirrors the defects of the unchanged `DistMatrix` -/
 
-omit [DecidableEq J] in
-theorem terminal_of_enabled_nil (P : Params J V) (c : Cfg J V) (h : enabled P c = []) : Terminal P c := by
-  intro l
-  cases hs : step? P c l with
-  | none => rfl
-  | some c' =>
-    exfalso
-    have hmem : l ∈ labels c.workers.length := by
-      have inRange : ∀ w : Nat, (c.workers[w]?).isSome = true → w < c.workers.length := by
-        intro w hw
-        cases Nat.lt_or_ge w c.workers.length with
-        | inl h => exact h
-        | inr h => simp [List.getElem?_eq_none h] at hw
-      have key : ∀ w : Nat, (c.workers[w]?).isSome = true →
-          ∀ l', l' ∈ [Label.recv w, .work w, .lock w, .fail w, .exit w, .abort w] → l' ∈ labels c.workers.length := by
-        intro w hw l' hl'
-        simp only [labels, List.mem_append, List.mem_flatMap, List.mem_range]
-        exact Or.inr ⟨w, inRange w hw, hl'⟩
-      cases l with
-      | produce => simp [labels]
-      | close => simp [labels]
-      | wait => simp [labels]
-      | closeRes => simp [labels]
-      | drain => simp [labels]
-      | recv w =>
-        refine key w ?_ _ (by simp)
-        simp only [step?] at hs; split at hs <;> simp_all
-      | work w =>
-        refine key w ?_ _ (by simp)
-        simp only [step?] at hs; split at hs <;> simp_all
-      | lock w =>
-        refine key w ?_ _ (by simp)
-        simp only [step?] at hs; split at hs <;> simp_all
-      | fail w =>
-        refine key w ?_ _ (by simp)
-        simp only [step?] at hs; split at hs <;> simp_all
-      | exit w =>
-        refine key w ?_ _ (by simp)
-        simp only [step?] at hs; split at hs <;> simp_all
-      | abort w =>
-        refine key w ?_ _ (by simp)
-        simp only [step?] at hs; split at hs <;> simp_all
-    have : l ∈ enabled P c := by
-      simp only [enabled, List.mem_filter]
-      exact ⟨hmem, by simp [hs]⟩
-    rw [h] at this
-    simp at this
-
 /-- the discipline of the unchanged `DistMatrix`: the error `return` skips `wg.Done`, and every
 successful `Distance` call overwrites the named result `err` -/
 def asIs : Discipline := ⟨false, false⟩
